@@ -4,7 +4,7 @@ from .. import pyspec as S
 ID = "C11"
 RULE = ("for each of the 6 sets x 3 containers: from_bytes/to_bytes on generated keys and on random byte strings of the right length, "
         "on lengths N-1, N+1, 0, 1, the sizes of the other containers and (harness-side loop) EVERY length 0..N+64 (must be refused); the pair's byte form must be "
-        "sk || pk; round-tripped keys must give the same signatures and verification decisions. distinct_nontrivial = distinct requests.")
+        "sk || pk; round-tripped keys must give the same signatures and verification decisions. distinct_nontrivial = distinct requests. Text-like bytes (LF, CR, blank, tab, NUL, quote, '=', DEL, 0xFF) at the ends and the sk/pk seam, lengths N, N+-1, N+2.")
 EXPLANATION = "Props/C11.lean proves the container identities and the refusal of every wrong length in the model; the tie runs all 18 containers."
 ASSUMPTIONS = ["`refused` = the Rust `expect` panic, observed through catch_unwind"]
 _keys = {}
